@@ -433,3 +433,40 @@ Ltac subst_sqrt_powers :=
 Ltac sqrt_field :=
   abstract_sqrts;
   first [ ring | field; nonzero_side | field_simplify_eq; [ subst_sqrt_powers; ring | nonzero_side ] ].
+
+(* ---- intersect_lines without square roots is the same function ----------------------------------------------------- *)
+Lemma vnorm_eq0_iff_dot a : vnorm ROps a = 0 <-> vdot ROps a a = 0.
+Proof.
+  rewrite vnorm_zero_iff. split.
+  - intros ->. unfold v0. vunf. ring.
+  - intros H. apply vnorm2_zero. exact H.
+Qed.
+Lemma intersect_lines_rational_eq p0 q0 p1 q1 :
+  intersect_lines ROps p0 q0 p1 q1 = intersect_lines_rational ROps p0 q0 p1 q1.
+Proof.
+  unfold intersect_lines, intersect_lines_rational. unfold n0; rops.
+  destruct (veqb ROps p0 p1 || veqb ROps p0 q1); [reflexivity|].
+  destruct (veqb ROps q0 p1 || veqb ROps p0 q1); [reflexivity|].
+  set (e := vsub ROps p0 q0). set (f := vsub ROps p1 q1). set (g := vsub ROps p0 p1).
+  set (h := vcross ROps f g). set (k := vcross ROps f e).
+  destruct (Reqb_spec (vnorm ROps k) 0) as [Ek|Nk].
+  - rewrite (proj2 (Reqb_true (vdot ROps k k) 0) (proj1 (vnorm_eq0_iff_dot k) Ek)). reflexivity.
+  - rewrite (proj2 (Reqb_false (vdot ROps k k) 0)) by (intros E; apply Nk, vnorm_eq0_iff_dot, E).
+    destruct (Reqb_spec (vnorm ROps h) 0) as [Eh|Nh].
+    + rewrite (proj2 (Reqb_true (vdot ROps h h) 0) (proj1 (vnorm_eq0_iff_dot h) Eh)). reflexivity.
+    + rewrite (proj2 (Reqb_false (vdot ROps h h) 0)) by (intros E; apply Nh, vnorm_eq0_iff_dot, E).
+      destruct (Reqb_spec (vdot ROps g k) 0) as [Eg|Ng]; cbn [negb]; [|reflexivity].
+      f_equal. assert (Hk : k <> v0) by (intros E; apply Nk, vnorm_zero_iff, E).
+      pose proof (coplanar_parallel e f g Eg) as HA. fold h k in HA.
+      pose proof (step_cancels h k Hk HA) as HS. pose proof (vnorm2_pos k Hk) as Hp.
+      set (c := (if Rltb 0 (vdot ROps h k) then -1 else 1) * (vnorm ROps h / vnorm ROps k)) in *.
+      assert (Hc : c * vdot ROps k k = - vdot ROps h k).
+      { destruct h as [h1 h2 h3], k as [k1 k2 k3]. unfold v0 in HS. vunf_in HS. injection HS as S1 S2 S3. vunf.
+        clear - S1 S2 S3. nsatz. }
+      replace (vadd ROps p0 (vscale ROps (if Rltb 0 (vdot ROps h k) then -1 else 1)
+                                (vscale ROps (vnorm ROps h / vnorm ROps k) e)))
+        with (vadd ROps p0 (vscale ROps c e)) by (unfold c; destruct (Rltb 0 (vdot ROps h k)); vec_eq; ring).
+      unfold vnorm2 in Hp. set (kk := vdot ROps k k) in *. set (hk := vdot ROps h k) in *. clearbody c kk hk.
+      assert (E : c = - hk / kk) by (apply Rmult_eq_reg_r with kk; [rewrite Hc; field; lra|lra]).
+      rewrite E. destruct p0 as [x y z], e as [e1 e2 e3]. vec_eq; field; lra.
+Qed.
